@@ -78,7 +78,12 @@ def rational_quadratic_spline(
     min_derivative=DEFAULT_MIN_DERIVATIVE,
     enable_identity_init=False,
 ):
-    if torch.min(inputs) < left or torch.max(inputs) > right:
+    # The inverse takes its inputs from the output interval [bottom, top].
+    if inverse:
+        lower, upper = bottom, top
+    else:
+        lower, upper = left, right
+    if torch.min(inputs) < lower or torch.max(inputs) > upper:
         raise InputOutsideDomain()
 
     num_bins = unnormalized_widths.shape[-1]
